@@ -149,11 +149,43 @@ def run(ctx: Ctx) -> None:
             tg = s.targets[0] if isinstance(s, ast.Assign) else s.target
             if isinstance(tg, ast.Name):
                 area_nm = tg.id
+    # ... or accumulated by a loop over the rows: acc = 0; for row in
+    # inst: acc (+)= int(row[0]) * int(row[1]) * int(row[2])
+    area_loop = None
+    loop_elt = None
+    if area_nm is None:
+        for s in func_body(pr):
+            if isinstance(s, ast.For) and isinstance(
+                    s.target, ast.Name) and ast.unparse(
+                    s.iter) == ip and len(s.body) == 1 and not s.orelse:
+                b0 = s.body[0]
+                acc = val_ = None
+                if isinstance(b0, ast.AugAssign) and isinstance(
+                        b0.op, ast.Add) and isinstance(b0.target, ast.Name):
+                    acc, val_ = b0.target.id, b0.value
+                elif isinstance(b0, ast.Assign) and isinstance(
+                        b0.targets[0], ast.Name) and isinstance(
+                        b0.value, ast.BinOp) and isinstance(
+                        b0.value.op, ast.Add):
+                    acc = b0.targets[0].id
+                    l_, r_ = b0.value.left, b0.value.right
+                    val_ = r_ if ast.unparse(l_) == acc else (
+                        l_ if ast.unparse(r_) == acc else None)
+                inits = [x for x in func_body(pr) if isinstance(
+                    x, (ast.Assign, ast.AnnAssign)) and ast.unparse(
+                    x.targets[0] if isinstance(x, ast.Assign)
+                    else x.target) == (acc or "?") and repo.const(
+                    pr.module, x.value) == 0]
+                if acc and val_ is not None and len(inits) == 1:
+                    area_nm, area_loop, loop_elt = acc, s, (
+                        s.target.id, val_)
     if area_nm is not None:
         env.vars[area_nm] = Poly.var("item_area")
     ok3 = False
     try:
         for s in func_body(pr):
+            if s is area_loop:
+                continue
             if isinstance(s, (ast.Assign, ast.AnnAssign)):
                 tg = s.targets[0] if isinstance(s, ast.Assign) else s.target
                 if isinstance(tg, ast.Name) and tg.id == area_nm:
@@ -168,13 +200,17 @@ def run(ctx: Ctx) -> None:
     gen = next((n for n in ast.walk(pr.node)
                 if isinstance(n, (ast.GeneratorExp, ast.ListComp))), None)
     ok4 = False
-    if gen is not None and len(gen.generators) == 1 and isinstance(
+
+    def factors(e_: ast.expr) -> list[str]:
+        if isinstance(e_, ast.BinOp) and isinstance(e_.op, ast.Mult):
+            return factors(e_.left) + factors(e_.right)
+        return [ast.unparse(e_).replace(" ", "")]
+    if loop_elt is not None:
+        ok4 = sorted(factors(loop_elt[1])) == sorted(
+            f"int({loop_elt[0]}[{k_}])" for k_ in (0, 1, 2))
+    elif gen is not None and len(gen.generators) == 1 and isinstance(
             gen.generators[0].target, ast.Name):
         rv_ = gen.generators[0].target.id
-        def factors(e_: ast.expr) -> list[str]:
-            if isinstance(e_, ast.BinOp) and isinstance(e_.op, ast.Mult):
-                return factors(e_.left) + factors(e_.right)
-            return [ast.unparse(e_).replace(" ", "")]
         ok4 = ast.unparse(gen.generators[0].iter) == ip and \
             not gen.generators[0].ifs and sorted(factors(gen.elt)) == \
             sorted(f"int({rv_}[{k_}])" for k_ in (0, 1, 2))
